@@ -147,6 +147,7 @@ fn _param_list_openqasm(p: &mut Parser<'_>, flavor: DefFlavor) {
 
     // Parse items until EOF or an end token is seen.
     while !p.at(EOF) && !at_list_end_token(p, flavor) {
+        let pos_before = p.position();
         let m = p.start();
 
         let inner_array_literal = p.at(T!['{']);
@@ -195,6 +196,13 @@ fn _param_list_openqasm(p: &mut Parser<'_>, flavor: DefFlavor) {
             break;
         }
         num_params += 1;
+
+        // The item parsers report errors without consuming anything when the current token
+        // cannot start an item. Stop here in that case; otherwise this loop never terminates
+        // (for example on `def f(3)` or `extern f(x`).
+        if p.position() == pos_before {
+            break;
+        }
 
         // If the very next token is an end token, stop
         if at_list_end_token(p, flavor) {
